@@ -115,3 +115,15 @@ def roundtrip_mpint(prefix, v, suffix):
     r.get_bytes(len(prefix))
     assert r.get_mpint() == v
     assert r.get_remainder() == suffix
+
+
+def roundtrip_adaptive_int(prefix, v, suffix):
+    from paramiko.message import Message
+    m = Message()
+    m.add_bytes(prefix)
+    m.add_adaptive_int(v)
+    m.add_bytes(suffix)
+    r = Message(m.asbytes())
+    r.get_bytes(len(prefix))
+    assert r.get_adaptive_int() == v
+    assert r.get_remainder() == suffix
